@@ -35,6 +35,11 @@
                 -the abandoned call returns, late candidate closed-> PDone
                 (the last sub-step runs WITHOUT reloadMu)
 
+   TReaderSplit is a reader whose DataReader.Close is NOT one critical section (seeded change
+   c06h): PFreed -refCount-- atomically, outside DB.l; done if other readers remain-> PDecd
+   -DB.l: close if destroyable and refCount = 0-> PDone.  Used only to show why the release
+   must be one critical section.
+
    [late_lock] switches to the variant in which FBDNSDB.Reload takes the write
    lock only around the swap (seeded change c06f): used to show that the
    theorems are about the lock.
@@ -50,12 +55,13 @@ Inductive tspec :=
 | TReader (uses : nat)
 | TReload (c : cand)
 | TReloadTimeout (c : cand)
-| TShutdown.
+| TShutdown
+| TReaderSplit (uses : nat).   (* variant c06h: a reader whose release decrements outside DB.l *)
 
 Inductive pc :=
 | PStart | PRLocked | PPinned | PHold (n : nat) | PFreed
 | PWLocked | PCalled | PRetSame | PRetNew | PValidOk | PValidFail | PDestroyed | PSwapped | PFailed
-| PTimedOut | PDone.
+| PTimedOut | PDecd | PDone.
 
 Record thread := mkT {
   t_spec : tspec;
@@ -116,6 +122,36 @@ Definition sstep (t : nat) (ss : sstate) : option sstate :=
                   Some (upd_sh ss t (set_pc th PDone) (set_readers (remove_r t (readers s1)) s1))
       | None => None
       end
+  (* ---- reader with the split release (c06h); up to FreeContext like TReader *)
+  | TReaderSplit _, PStart =>
+      match lk_w ss with
+      | None => if shut s then None
+                else Some (mkSS s None (t :: lk_r ss) (fupd (ths ss) t (set_pc th PRLocked)) (late_lock ss))
+      | Some _ => None
+      end
+  | TReaderSplit _, PRLocked => Some (upd_sh ss t (set_pc th PPinned) (step (Acquire t) s))
+  | TReaderSplit k, PPinned =>
+      Some (mkSS s (lk_w ss) (remove_tid t (lk_r ss)) (fupd (ths ss) t (set_pc th (PHold k))) (late_lock ss))
+  | TReaderSplit _, PHold (S j) => Some (upd_sh ss t (set_pc th (PHold j)) (step (Use t) s))
+  | TReaderSplit _, PHold O =>
+      match lookup t (readers s) with
+      | Some i => Some (upd_sh ss t (set_pc th PFreed) (touch (w_bk (ws s i)) OpFreeContext s))
+      | None => None
+      end
+  | TReaderSplit _, PFreed =>
+      (* atomic.AddUint64(&refCount, ^0) without DB.l; only the reader that reaches 0 goes on *)
+      match lookup t (readers s) with
+      | Some i =>
+          let w1 := w_set_ref (ws s i) (dec64 (w_ref (ws s i))) in
+          let s1 := set_readers (remove_r t (readers s)) (set_ws (nw s) (fupd (ws s) i w1) s) in
+          Some (upd_sh ss t (mkT (t_spec th) (if w_ref w1 =? 0 then PDecd else PDone) i (t_new th)) s1)
+      | None => None
+      end
+  | TReaderSplit _, PDecd =>
+      (* DB.l: if destroyable && refCount == 0 then dbi.Close() *)
+      let w := ws s (t_f th) in
+      Some (upd_sh ss t (set_pc th PDone)
+              (if w_destroyable w && (w_ref w =? 0) then bclose (w_bk w) s else s))
   (* ---- reload *)
   | TReload _, PStart =>
       if shut s then None
@@ -190,8 +226,11 @@ Definition mk_ths (specs : list tspec) : nat -> thread :=
   fun t => mkT (nth t specs TIdle) PStart 0 0.
 Definition sinit (specs : list tspec) (late : bool) : sstate := mkSS init None [] (mk_ths specs) late.
 
-Definition is_timeout (sp : tspec) : bool := match sp with TReloadTimeout _ => true | _ => false end.
-Definition no_timeouts (specs : list tspec) : bool := forallb (fun sp => negb (is_timeout sp)) specs.
+(* the variant thread kinds (a reload that times out: F28; a split release: c06h) are
+   excluded from the positive theorems and used in the refutations *)
+Definition is_variant (sp : tspec) : bool :=
+  match sp with TReloadTimeout _ | TReaderSplit _ => true | _ => false end.
+Definition no_variants (specs : list tspec) : bool := forallb (fun sp => negb (is_variant sp)) specs.
 
 Definition finished (th : thread) : bool :=
   match t_spec th, t_pc th with TIdle, _ => true | _, PDone => true | _, _ => false end.
